@@ -175,6 +175,14 @@ Definition exponent_len (s : str) : option nat :=
 
 Inductive numkind := NFloat | NInt | NUint.
 
+(** the longer candidate; the earlier one on a tie *)
+Definition best_num (a b : option (numkind * nat)) : option (numkind * nat) :=
+  match a, b with
+  | Some (_, x), Some (_, y) => if Nat.ltb x y then b else a
+  | None, _ => b
+  | _, None => a
+  end.
+
 (** Longest numeric token at the start of [s]: (kind, length). *)
 Definition num_tok (s : str) : option (numkind * nat) :=
   let '(ds, r) := span is_digit s in
@@ -229,12 +237,6 @@ Definition num_tok (s : str) : option (numkind * nat) :=
                       | Some (k, r2) => if is_u r2 then Some (S k) else None
                       | None => None
                       end in
-      let best (a b : option (numkind * nat)) :=
-        match a, b with
-        | Some (_, x), Some (_, y) => if Nat.ltb x y then b else a
-        | None, _ => b
-        | _, None => a
-        end in
       let fl := match float1, float2 with
                 | Some a, Some b => Some (NFloat, Nat.max a b)
                 | Some a, None => Some (NFloat, a)
@@ -247,7 +249,7 @@ Definition num_tok (s : str) : option (numkind * nat) :=
                 | None, Some b => Some (NUint, b)
                 | None, None => None
                 end in
-      best (best fl (Some (NInt, int_len))) ui
+      best_num (best_num fl (Some (NInt, int_len))) ui
   end.
 
 Definition kw (s : string) : str := str_of_string s.
